@@ -29,6 +29,12 @@
       fragments stated separately for all inputs: `mp_model_fixint_is_spec`, `mp_model_int_is_spec_int` (uint8..64, int8..64),
       `mp_model_float_is_spec`, `mp_model_str_is_spec` (fixstr, str8/16/32), `mp_model_truncated_is_eof`, `mp_model_rejects_c1`,
       `mp_model_timestamps`, `mp_model_error_codes`.
+    * the real UBJSON decoder's logic — JV.Model.UbjsonParser, a functional transcription of ubjson_parser.hpp (read_value over every
+      marker incl. no-op and high-precision numbers, get_length, read_key, begin_array / begin_object with `$type` / `#count`, the nine
+      container parse modes, max_items, max_nesting_depth) — stated per fragment for ALL inputs, every fuel, depth and option setting
+      (helper lemmas in JV/Proofs/UbjsonParser.lean; the whole-grammar refinement is NOT proved for UBJSON): `ubj_model_int_is_spec_int`
+      (i U I l L), `ubj_model_float_is_spec`, `ubj_model_str_is_spec` (with `getLength_of_spec`: every length item the reference reads is
+      read identically), `ubj_model_truncated_is_eof`, `ubj_model_limits`, `ubj_model_error_codes`.
     * facts about the reference itself that the property names: `head_roundtrip`, `int_roundtrip`, `reserved_rejected`,
       `reserved_simple_rejected`, `truncated_head_rejected`, `half_sign_symmetric`, `half_normal`.
 
@@ -43,9 +49,14 @@
       MessagePack inputs judged against the reference plus ext items of every form and type, the three timestamp layouts (nanoseconds
       beyond 999999999, negative seconds), non-string keys, nesting at the depth limit and under small limits, every width at its boundary
       values, every strict prefix of those; `skip` only for float / container keys.
+    * model = real code (UBJSON): stream `ubjson-decoder-model` feeds the same bytes and options (max_items, max_nesting_depth) to the real
+      decoder (`bin dec ubjson`) and to the model (`bin mdec ubjson`): identical error code or identical value (H → s…@bigint / s…@bigdec,
+      no-op elements absent) on the UBJSON inputs judged against the reference plus typed / counted / open containers of every element
+      type, no-ops in every position, counts around max_items, nesting around the limit, bad keys and lengths, every strict prefix of a
+      fixed list; `skip` only for a no-op marker as a member value or as the root.
     * real code = reference: the real CBOR / MessagePack / UBJSON / BSON decoders against the reference decoders written in Lean from the
       specifications (JV.Spec.Cbor, JV.Spec.BinFormats) on reference encodings in every legal width and form, mutations, every strict
-      prefix, every 1–2 (thorough: sampled 3) byte string. The UBJSON and BSON decoders themselves are not modelled.
+      prefix, every 1–2 (thorough: sampled 3) byte string. The BSON decoder itself is not modelled.
   Fuel adequacy IS proved for the CBOR model (JV.Proofs.CborParserFuel, stated in Props.C05.cbor_fuel_suffices): with `decode`'s fuel
   2·|input|+2 the model never answers `Fail.fuel`, because every item read consumes at least one byte. For the MessagePack model it is
   observed only (`Fail.fuel` would print `fuel`, which never equals a real outcome).
@@ -61,6 +72,8 @@ import JV.Model.CborParser
 import JV.Proofs.CborParser
 import JV.Model.MsgpackParser
 import JV.Proofs.MsgpackParser
+import JV.Model.UbjsonParser
+import JV.Proofs.UbjsonParser
 import JV.Extracted.ErrorCodes
 namespace JV.Props.C07
 open JV Spec.Cbor Model.Cbor
@@ -639,5 +652,111 @@ example : toBV renderKey true (.map [(.bool true, .uint 2)]) = some (.map [([116
 example : Model.MsgpackParser.decode 1024 [0xd4, 0xff] = .fail (.err .unexpectedEof) := by rfl
 
 end msgpack_parser_model
+
+section ubjson_parser_model
+open Model.UbjsonParser Spec
+
+/-- every integer marker (i U I l L), in any position, at every fuel, depth and option setting: when the payload is there the model
+    (= the real read_value) and the reference yield the same integer and the same rest -/
+theorem ubj_model_int_is_spec_int (o : Opts) (fuel depth : Nat) (s d r : Bytes) :
+    (takeN 1 s = some (d, r) →
+      value o (fuel + 1) depth 105 s = .ok (.nint (toSigned 8 (beVal d))) r ∧ Spec.Ubjson.valueOf (fuel + 1) 105 s = .ok (.int (toSigned 8 (beVal d)) "") r ∧
+      value o (fuel + 1) depth 85 s = .ok (.uint (beVal d)) r ∧ Spec.Ubjson.valueOf (fuel + 1) 85 s = .ok (.int (beVal d) "") r) ∧
+    (takeN 2 s = some (d, r) →
+      value o (fuel + 1) depth 73 s = .ok (.nint (toSigned 16 (beVal d))) r ∧ Spec.Ubjson.valueOf (fuel + 1) 73 s = .ok (.int (toSigned 16 (beVal d)) "") r) ∧
+    (takeN 4 s = some (d, r) →
+      value o (fuel + 1) depth 108 s = .ok (.nint (toSigned 32 (beVal d))) r ∧ Spec.Ubjson.valueOf (fuel + 1) 108 s = .ok (.int (toSigned 32 (beVal d)) "") r) ∧
+    (takeN 8 s = some (d, r) →
+      value o (fuel + 1) depth 76 s = .ok (.nint (toSigned 64 (beVal d))) r ∧ Spec.Ubjson.valueOf (fuel + 1) 76 s = .ok (.int (toSigned 64 (beVal d)) "") r) := by
+  refine ⟨?_, ?_, ?_, ?_⟩ <;> intro ht <;> unfold Spec.Ubjson.valueOf <;>
+    simp [value, Spec.Ubjson.valueOf, Spec.Ubjson.intOf, number, readBE_some ht, ht, asSigned_eq]
+
+/-- float32 (widened exactly) and float64 -/
+theorem ubj_model_float_is_spec (o : Opts) (fuel depth : Nat) (s d r : Bytes) :
+    (takeN 4 s = some (d, r) →
+      value o (fuel + 1) depth 100 s = .ok (.dbl (f32ToF64 (beVal d))) r ∧ Spec.Ubjson.valueOf (fuel + 1) 100 s = .ok (.dbl (f32ToF64 (beVal d)) "") r) ∧
+    (takeN 8 s = some (d, r) →
+      value o (fuel + 1) depth 68 s = .ok (.dbl (beVal d)) r ∧ Spec.Ubjson.valueOf (fuel + 1) 68 s = .ok (.dbl (beVal d) "") r) := by
+  constructor <;> intro ht <;> unfold Spec.Ubjson.valueOf <;> simp [value, number, readBE_some ht, ht]
+
+/-- S: whenever the reference reads the length item (any of i U I l L, not negative), the model reads the same length, and then both
+    sides have the same outcome: too few bytes → unexpected_eof / ill-formed, invalid UTF-8 → invalid_utf8_text_string / ill-formed,
+    otherwise the same string and the same rest -/
+theorem ubj_model_str_is_spec (o : Opts) (fuel depth : Nat) (s r : Bytes) (n : Nat) (hl : Spec.Ubjson.length s = some (n, r)) :
+    (r.length < n → value o (fuel + 1) depth 83 s = .fail (.err .unexpectedEof) ∧ Spec.Ubjson.valueOf (fuel + 1) 83 s = .illformed) ∧
+    (¬ r.length < n → Rfc8259.validUtf8 (r.take n) = false →
+      value o (fuel + 1) depth 83 s = .fail (.err .invalidUtf8TextString) ∧ Spec.Ubjson.valueOf (fuel + 1) 83 s = .illformed) ∧
+    (¬ r.length < n → Rfc8259.validUtf8 (r.take n) = true →
+      value o (fuel + 1) depth 83 s = .ok (.str (r.take n)) (r.drop n) ∧ Spec.Ubjson.valueOf (fuel + 1) 83 s = .ok (.str (r.take n) "") (r.drop n)) := by
+  have hg := getLength_of_spec hl
+  refine ⟨?_, ?_, ?_⟩
+  · intro h
+    unfold Spec.Ubjson.valueOf
+    simp [value, Spec.Ubjson.valueOf, readStr, hg, hl, readSpan, takeN, h]
+  · intro h hv
+    unfold Spec.Ubjson.valueOf
+    simp [value, Spec.Ubjson.valueOf, readStr, hg, hl, readSpan, takeN, h, badUtf8_eq, hv]
+  · intro h hv
+    unfold Spec.Ubjson.valueOf
+    simp [value, Spec.Ubjson.valueOf, readStr, hg, hl, readSpan, takeN, h, badUtf8_eq, hv]
+
+/-- truncation: no type byte, a number whose payload is short, a char without its byte, a string / high-precision number / key without
+    its length item, a container that stops after `[` / `{` / `$` / `$t`: unexpected_eof (key_expected for the key) -/
+theorem ubj_model_truncated_is_eof (o : Opts) (fuel depth : Nat) (s : Bytes) :
+    decodeWith o fuel [] = .fail (.err .unexpectedEof) ∧
+    (s.length < 1 → value o (fuel + 1) depth 105 s = .fail (.err .unexpectedEof) ∧ value o (fuel + 1) depth 85 s = .fail (.err .unexpectedEof) ∧
+      value o (fuel + 1) depth 67 s = .fail (.err .unexpectedEof) ∧ value o (fuel + 1) depth 83 s = .fail (.err .unexpectedEof) ∧
+      value o (fuel + 1) depth 72 s = .fail (.err .unexpectedEof) ∧ readKey s = .fail (.err .keyExpected)) ∧
+    (s.length < 2 → value o (fuel + 1) depth 73 s = .fail (.err .unexpectedEof)) ∧
+    (s.length < 4 → value o (fuel + 1) depth 108 s = .fail (.err .unexpectedEof) ∧ value o (fuel + 1) depth 100 s = .fail (.err .unexpectedEof)) ∧
+    (s.length < 8 → value o (fuel + 1) depth 76 s = .fail (.err .unexpectedEof) ∧ value o (fuel + 1) depth 68 s = .fail (.err .unexpectedEof)) ∧
+    (depth + 1 ≤ o.maxDepth → ∀ isArr t,
+      container o (fuel + 1) depth isArr [] = .fail (.err .unexpectedEof) ∧ container o (fuel + 1) depth isArr [36] = .fail (.err .unexpectedEof) ∧
+      container o (fuel + 1) depth isArr [36, t] = .fail (.err .unexpectedEof)) := by
+  refine ⟨rfl, ?_, ?_, ?_, ?_, ?_⟩
+  · intro h
+    have : s = [] := by cases s <;> simp_all
+    subst this
+    simp [value, number, readBE, readChar, readStr, readBig, getLength, readKey]
+  · intro h; simp [value, number, readBE_short h]
+  · intro h; simp [value, number, readBE_short h]
+  · intro h; simp [value, number, readBE_short h]
+  · intro h isArr t
+    have : ¬ depth + 1 > o.maxDepth := by omega
+    simp [container, this]
+
+/-- the limits come first: a container at the nesting limit is max_nesting_depth_exceeded whatever follows; a count above max_items is
+    max_items_exceeded -/
+theorem ubj_model_limits (o : Opts) (fuel depth : Nat) (isArr : Bool) (s r : Bytes) (n ty : Nat) :
+    (o.maxDepth < depth + 1 → container o (fuel + 1) depth isArr s = .fail (.err .maxNestingDepthExceeded)) ∧
+    (depth + 1 ≤ o.maxDepth → getLength s = .ok n r → o.maxItems < n →
+      container o (fuel + 1) depth isArr (35 :: s) = .fail (.err .maxItemsExceeded) ∧
+      container o (fuel + 1) depth isArr (36 :: ty :: 35 :: s) = .fail (.err .maxItemsExceeded)) := by
+  constructor
+  · intro h; simp [container, h]
+  · intro h hg hn
+    have : ¬ depth + 1 > o.maxDepth := by omega
+    simp [container, this, hg, hn]
+
+/-- the model's error numbers are the header's `ubjson_errc` numbers -/
+theorem ubj_model_error_codes (e : Model.UbjsonParser.Err) : (e.name, e.code) ∈ JV.Extracted.ubjsonErrc := by
+  cases e <;> decide
+
+/-! non-vacuity: kernel-evaluated runs of the model next to the reference -/
+example : decode {} [91, 36, 105, 35, 85, 2, 255, 1] = .ok (.arr [.nint (-1), .nint 1]) [] := by rfl
+example : toBV false false (.arr [.nint (-1), .nint 1]) = some (.arr [.int (-1) "", .int 1 ""]) := by rfl
+example : decode {} [123, 105, 1, 97, 83, 105, 1, 98, 125] = .ok (.map [([97], .str [98])]) [] := by rfl
+example : decode {} [91, 36, 78, 35, 105, 3] = .ok (.arr [.noop, .noop, .noop]) [] := by rfl
+example : toBV true true (.arr [.noop, .noop, .noop]) = some (.arr []) := by rfl
+example : decode {} [72, 85, 2, 45, 53] = .ok (.big [45, 53] true) [] := by rfl
+example : decode {} [72, 85, 2, 255, 254] = .ok (.big [255, 254] false) [] := by rfl
+example : decode {} [91, 35, 105, 255] = .fail (.err .lengthIsNegative) := by rfl
+example : decode {} [123, 90] = .fail (.err .keyExpected) := by rfl
+example : decode {} [91, 36, 105, 88] = .fail (.err .countRequiredAfterType) := by rfl
+example : decode { maxItems := 2 } [91, 84, 84, 84, 93] = .fail (.err .maxItemsExceeded) := by rfl
+example : decode { maxDepth := 1 } [91, 91, 93, 93] = .fail (.err .maxNestingDepthExceeded) := by rfl
+example : decode {} [67, 128] = .fail (.err .invalidUtf8TextString) := by rfl
+
+end ubjson_parser_model
 
 end JV.Props.C07
